@@ -178,6 +178,12 @@ class LineHooks(Hooks):
                                            for a in args[:2]):
             return getattr(_re, ent.name.split(".")[1])(args[0], args[1])
         if isinstance(node.func, _ast.Name) and node.func.id == "type":
+            # type(x) of an abstract object of a repository class is that
+            # class (as x.__class__ is); of anything else an opaque token
+            # (used in messages only)
+            if len(args) == 1 and isinstance(args[0], Abs) and \
+                    args[0].cls is not None and hasattr(args[0].cls, "mro"):
+                return args[0].cls
             return "<type>"
         return NotImplemented
 
